@@ -127,7 +127,23 @@ def must_pass_edge(body, target_bb, edge):
         if 0 in av or target_bb in av or target_bb not in body.reachable(0, avoid=av):
             return False
         return target_bb not in reachable_without_edges(body, 0, {edge}, avoid=av)
-    return target_bb not in reachable_without_edges(body, 0, {edge})
+    if target_bb not in reachable_without_edges(body, 0, {edge}):
+        return True
+    if getattr(body, "inlined", None):
+        # an inlined view: a helper's result joins before the caller matches on it (`match self.fetch()? { Nothing => ..}`), so
+        # the plain CFG loses the edge; ask the value-sensitive search (cached per edge)
+        cache = getattr(body, "_vs_cut", None)
+        if cache is None:
+            cache = body._vs_cut = {}
+        if edge not in cache:
+            try:
+                r, _ = flag_search(body, [0], cut_edges={edge}, track_bools=False, max_states=60000)
+                cache[edge] = set(r) if r is not None else None
+            except Exception:
+                cache[edge] = None
+        if cache[edge] is not None and target_bb not in cache[edge]:
+            return True
+    return False
 
 
 class restricted_paths:
@@ -329,12 +345,23 @@ def _vkey(kv):
 
 
 def _bool_tuple_locals(body):
-    """{local: arity} for locals of type (bool, bool, ..)"""
+    """{local: arity} for locals of type (bool, bool, ..) and of crate structs whose fields are all bool (`PassSummary { done,
+    all_idle }`)"""
     out = {}
+    try:
+        from .effects import _FACTS_FOR_VERDICTS
+        facts = _FACTS_FOR_VERDICTS.get(id(body))
+    except Exception:
+        facts = None
     for i, l in enumerate(body.locals):
         ty = l["ty"].replace(" ", "")
         if ty.startswith("(bool") and ty.endswith(")") and set(ty[1:-1].split(",")) <= {"bool", ""}:
             out[i] = len([x for x in ty[1:-1].split(",") if x])
+        elif facts is not None and l["ty"] in facts.adts:
+            a = facts.adts[l["ty"]]
+            if a["kind"] == "struct" and a["variants"] and a["variants"][0]["fields"] and \
+                    all(f["ty"]["s"] == "bool" for f in a["variants"][0]["fields"]):
+                out[i] = len(a["variants"][0]["fields"])
     return out
 
 
@@ -366,12 +393,21 @@ def _enum_locals(body):
             carriers[i] = 1
         elif ty.startswith("std::ops::ControlFlow<"):
             carriers[i] = 0
+    fel = set()        # locals of crate enums that have variants with fields: tracked as ("V", variant index, bool payloads)
+    withf = {path for path, a in facts.adts.items() if a["kind"] == "enum" and a["variants"] and path not in plain
+             and not path.startswith(("std::", "core::", "alloc::"))}
+    for i, l in enumerate(body.locals):
+        ty = l["ty"]
+        base = ty.split("<", 1)[0]
+        if base in withf and i not in carriers and i not in out:
+            fel.add(i)
+    body._fel = fel
     discr_tmps = set()
     for blk in body.blocks:
         for st in blk["stmts"]:
             if st["k"] == "assign" and st["rv"]["k"] == "discr" and not st["dst"]["p"]:
                 pl = st["rv"]["p"]
-                if not pl["p"] and (pl["l"] in out or pl["l"] in carriers):
+                if not pl["p"] and (pl["l"] in out or pl["l"] in carriers or pl["l"] in fel):
                     discr_tmps.add(st["dst"]["l"])
                 elif pl["l"] in carriers and _is_payload_proj(pl["p"]):
                     discr_tmps.add(st["dst"]["l"])
@@ -399,6 +435,7 @@ def flag_search(body, starts, init=None, stop=(), cut_edges=(), call_results=Non
     btl = _bool_tuple_locals(body) if track_bools else {}
     el, discr_tmps = _enum_locals(body)
     carriers = getattr(body, "_carriers", None) or {}
+    fel = getattr(body, "_fel", None) or set()
     init = dict(init or {})
     call_results = call_results or {}
     stop = set(stop)
@@ -434,6 +471,13 @@ def flag_search(body, starts, init=None, stop=(), cut_edges=(), call_results=Non
                 continue
             d = s["dst"]
             if d["p"]:
+                if d["l"] in btl and len(d["p"]) == 1 and isinstance(d["p"][0], dict) and "f" in d["p"][0]:
+                    # `pass.done = false;`
+                    x_ = _op_bool(s["rv"]["a"], v) if s["rv"]["k"] == "use" else None
+                    if x_ is None:
+                        v.pop((d["l"], d["p"][0]["f"]), None)
+                    else:
+                        v[(d["l"], d["p"][0]["f"])] = x_
                 continue
             l = d["l"]
             if l in btl:
@@ -441,11 +485,41 @@ def flag_search(body, starts, init=None, stop=(), cut_edges=(), call_results=Non
                 rv = s["rv"]
                 for i_ in range(btl[l]):
                     v.pop((l, i_), None)
-                if rv["k"] == "agg" and rv.get("ak") == "tuple" and len(rv["ops"]) == btl[l]:
+                if rv["k"] == "agg" and rv.get("ak") in ("tuple", "adt") and len(rv["ops"]) == btl[l]:
                     for i_, o_ in enumerate(rv["ops"]):
                         x_ = _op_bool(o_, v)
                         if x_ is not None:
                             v[(l, i_)] = x_
+                elif rv["k"] == "use":
+                    q = rv["a"].get("c") or rv["a"].get("m")
+                    if q is not None and not q["p"] and q["l"] in btl:
+                        for i_ in range(btl[l]):
+                            if isinstance(v.get((q["l"], i_)), bool):
+                                v[(l, i_)] = v[(q["l"], i_)]
+                    elif q is not None and q["l"] in carriers and _is_payload_proj(q["p"]):
+                        cv = v.get(q["l"])          # `let pass = self.run_pass(..)?;`
+                        if isinstance(cv, tuple) and cv and cv[0] == "W" and isinstance(cv[1], tuple) and cv[1] and cv[1][0] == "B":
+                            for i_, x_ in enumerate(cv[1][1][:btl[l]]):
+                                if isinstance(x_, bool):
+                                    v[(l, i_)] = x_
+                continue
+            if l in fel:
+                rv = s["rv"]
+                nv = None
+                if rv["k"] == "agg" and rv.get("vi") is not None:
+                    nv = ("V", int(rv["vi"]), tuple(_op_bool(o_, v) for o_ in rv["ops"]))
+                elif rv["k"] == "use":
+                    q = rv["a"].get("c") or rv["a"].get("m")
+                    if q is not None and not q["p"] and q["l"] in fel and isinstance(v.get(q["l"]), tuple):
+                        nv = v[q["l"]]
+                    elif q is not None and q["l"] in carriers and _is_payload_proj(q["p"]):
+                        cv = v.get(q["l"])          # `(result as Continue).0` of a helper that returned Ok(Enum::Variant(..))
+                        if isinstance(cv, tuple) and cv and cv[0] == "W" and isinstance(cv[1], tuple) and cv[1] and cv[1][0] == "V":
+                            nv = cv[1]
+                if nv is None:
+                    v.pop(l, None)
+                else:
+                    v[l] = nv
                 continue
             if l in carriers:
                 # Result<E,_> / Option<E> / ControlFlow<_,E> around a tracked enum E: ("W", variants) = the carrying variant
@@ -458,7 +532,9 @@ def flag_search(body, starts, init=None, stop=(), cut_edges=(), call_results=Non
                         if len(rv["ops"]) == 1:
                             q = rv["ops"][0].get("c") or rv["ops"][0].get("m")
                             if q is not None and not q["p"] and isinstance(v.get(q["l"]), tuple) and v[q["l"]] and v[q["l"]][0] not in ("W", "X"):
-                                nv = ("W", v[q["l"]])
+                                nv = ("W", v[q["l"]])        # a plain-enum value (tuple of variant indices) or a ("V", ..) value
+                            elif q is not None and not q["p"] and q["l"] in btl:
+                                nv = ("W", ("B", tuple(v.get((q["l"], i_)) for i_ in range(btl[q["l"]]))))
                     else:
                         nv = ("X",)
                 elif rv["k"] == "use":
@@ -481,13 +557,20 @@ def flag_search(body, starts, init=None, stop=(), cut_edges=(), call_results=Non
                     else:
                         v.pop(l, None)
                     continue
+                if l in discr_tmps and rv["k"] == "discr" and rv["p"]["l"] in fel and not rv["p"]["p"]:
+                    cv = v.get(rv["p"]["l"])
+                    if isinstance(cv, tuple) and cv and cv[0] == "V":
+                        v[l] = (cv[1],)
+                    else:
+                        v.pop(l, None)
+                    continue
                 if l in discr_tmps and rv["k"] == "discr" and rv["p"]["l"] in carriers:
                     cv = v.get(rv["p"]["l"])
                     if isinstance(cv, tuple) and cv:
                         if not rv["p"]["p"]:
                             nv = (carriers[rv["p"]["l"]],) if cv[0] == "W" else ((1 - carriers[rv["p"]["l"]],) if cv[0] == "X" else None)
                         elif cv[0] == "W" and cv[1] is not None and _is_payload_proj(rv["p"]["p"]):
-                            nv = cv[1]
+                            nv = (cv[1][1],) if cv[1] and cv[1][0] == "V" else cv[1]
                     if nv is None:
                         v.pop(l, None)
                     else:
@@ -650,6 +733,11 @@ def _op_bool(op, v):
     if p is not None and len(p["p"]) == 1 and isinstance(p["p"][0], dict) and "f" in p["p"][0]:
         x = v.get((p["l"], p["p"][0]["f"]))
         return x if isinstance(x, bool) else None
+    if p is not None and len(p["p"]) == 2 and isinstance(p["p"][0], dict) and "d" in p["p"][0] and isinstance(p["p"][1], dict) and "f" in p["p"][1]:
+        cv = v.get(p["l"])                  # `(after as Waited).0` of a tracked enum-with-fields value
+        if isinstance(cv, tuple) and cv and cv[0] == "V" and p["p"][0].get("i") == cv[1] and p["p"][1]["f"] < len(cv[2]):
+            x = cv[2][p["p"][1]["f"]]
+            return x if isinstance(x, bool) else None
     return None
 
 
@@ -688,7 +776,13 @@ def reach_avoiding(body, start, avoid):
     """Blocks reachable from start without entering `avoid`; empty if start itself is avoided."""
     if start in avoid:
         return set()
-    return body.reachable(start, avoid=avoid)
+    r = body.reachable(start, avoid=avoid)
+    # value-sensitive refinement (verdicts classified into a local enum and matched on later, helpers' Option/Result results)
+    try:
+        r2, _ = flag_search(body, [start], avoid=set(avoid))
+        return set(r2) & set(r) if r2 is not None else r
+    except Exception:
+        return r
 
 
 # ---- guard facts (analysis C) ------------------------------------------------------------
@@ -895,6 +989,8 @@ def known_ge(body, bb, a, b, _depth=0):
     cb = _const_of(pb)
     if cb == 0:
         return True
+    if _same_len_now(pa, pb):
+        return True           # len() of one container, evaluated for the same operation (`&buf[buf.len()..]`)
     if _depth < 3:
         # b chosen by hand between alternatives (`let n = if x.len() < room { x.len() } else { room };`): a >= b if a >= each
         # alternative where that alternative is assigned (the facts of its branch hold there), a itself not changing up to bb
@@ -923,7 +1019,7 @@ def known_ge(body, bb, a, b, _depth=0):
                     if px.k == "multi" and known_ge(body, bb, q, x, _depth + 1):
                         return True
     # b = min(a, x)
-    if pb.k == "call" and (pb.q in MIN_CALLS or pb.rq in MIN_CALLS) and any(_same_expr(x, pa) for x in pb.args):
+    if pb.k == "call" and (pb.q in MIN_CALLS or pb.rq in MIN_CALLS) and any(_same_expr(x, pa) or _same_len_now(x, pa) for x in pb.args):
         return True
     if pa.k == "call" and (pa.q in MAX_CALLS or pa.rq in MAX_CALLS) and any(_same_expr(x, pb) for x in pa.args):
         return True
@@ -1020,6 +1116,28 @@ def adt_helpers(facts, body, depth=2):
                             nxt.append(hb)
         frontier = nxt
     return out
+
+
+def expand_variant_payload(facts, e):
+    """`(helper(args) as Some).0` where the local helper builds that variant at exactly one return: the payload expression with
+    the parameters replaced by the actual arguments; else None"""
+    p = peel(e, through_try=False)
+    if p is None or p.k != "field" or p.a is None:
+        return None
+    d = peel(p.a, through_try=False)
+    if d is None or d.k != "downcast" or d.a is None:
+        return None
+    c = peel(d.a, through_try=False)
+    if c is None or c.k != "call":
+        return None
+    for q in (c.rq, c.q):
+        bodies = facts.by_q.get(q, []) if q else []
+        if len(bodies) != 1 or bodies[0].kind == "closure" or len(c.args or []) != bodies[0].argc:
+            continue
+        sel = [r for _, _, r in assigns_to_return(bodies[0]) if r.k == "agg" and r.variant == d.variant]
+        if len(sel) == 1 and sel[0].args and p.idx is not None and p.idx < len(sel[0].args):
+            return subst_params(peel(sel[0].args[p.idx], through_try=False), {i + 1: a for i, a in enumerate(c.args)})
+    return None
 
 
 def expand_local_call(facts, e, depth=0):
